@@ -35,14 +35,22 @@ def roundtrip_real(obj, cfg, tag):
     os.makedirs(base)
     path = os.path.join(base, "obj.zip" if cfg["store"] == "zip" else "objdir")
     target = pathlib.Path(path) if cfg["pathlib"] else path
+    if cfg.get("pre") is not None and cfg["mode"] == "o":
+        # overwrite mode: an earlier, different object already lives at the target
+        sc.Builder(None).build(cfg["pre"]).save(path, mode="w", store=cfg["store"])
     obj.save(target, mode=cfg["mode"], store=cfg["store"], compression_level=cfg["level"])
     loaded = serialize.load(target)
     return loaded, base
 
 
 def gen_cfg(rng, store):
-    return {"store": store, "level": rng.choice([None, 0, 1, 2, 3, 4, 5, 6, 7, 8, 9]), "pathlib": rng.chance(0.5),
-            "mode": rng.choice(["w", "o"])}
+    cfg = {"store": store, "level": rng.choice([None, 0, 1, 2, 3, 4, 5, 6, 7, 8, 9]), "pathlib": rng.chance(0.5),
+           "mode": rng.choice(["w", "o"])}
+    if cfg["mode"] == "o" and rng.chance(0.6):
+        # pre-existing target written from another object whose member names overlap the generator's
+        g = sc.Gen(rng.fork(77), {})
+        cfg["pre"] = ["obj", "SB", [[k, g.value(1)] for k in rng.sample(sc.NAMES, 5)]]
+    return cfg
 
 
 def classify(spec_sub):
@@ -147,6 +155,7 @@ def check_case(ctx, drv, recipe, cfgs, idx, streams=("corr", "pred")):
     ctx.dist[f"depth:{depth}"] += 1
     for cfg in cfgs:
         ctx.dist[f"cfg:{cfg['store']}:level={cfg['level']}"] += 1
+        ctx.dist[f"mode:{cfg['mode']}:{'pre-existing' if cfg.get('pre') else 'fresh'}"] += 1
     ctx.sample({"recipe": recipe, "cfgs": cfgs}, limit=2)
 
 
